@@ -144,10 +144,10 @@ def replay_rounds(ctx, bench, variant, rounds, findings, stats, yield_seed, tag,
     return "\n".join(logs)
 
 
-def lazy_launch(ctx, bench, findings, stats, k, seed):
+def lazy_launch(ctx, bench, findings, stats, k, seed, attempt=0):
     """no daemon is running: k `nano_vm --daemon` clients start at once and launch it themselves"""
-    work = ctx.dir("w_lazy")
-    sdir = os.path.join(ctx.scratch, "slazy")
+    work = ctx.dir("w_lazy%d" % attempt)
+    sdir = os.path.join(ctx.scratch, "slazy%d" % attempt)
     dm = V.Daemon(bench.vmd("plain"), sdir, bench.P, start=False)
     try:
         rng = random.Random(seed)
@@ -157,6 +157,12 @@ def lazy_launch(ctx, bench, findings, stats, k, seed):
             m = bench.module(t, 40 + i)
             flat.append(dict(id=40 + i, kind="exec", via="cli", template=t, path=m["path"], blob=m["blob"], std=m["std"], after=None))
         obs = V.play(dm, flat, rng, bench.nano_vm, work, jitter_ms=1.0)
+        if attempt == 0 and any(b"Timeout waiting for daemon" in o.get("stderr", b"") for o in obs):
+            # the client gives a freshly forked daemon 5 s (vmd_connect(5000)); on an overloaded machine that can
+            # expire without any defect: one retry before it counts
+            log("lazy launch: a client timed out waiting for the daemon; retrying once")
+            V.kill_private_daemons(sdir)
+            return lazy_launch(ctx, bench, findings, stats, k, seed, attempt=1)
         stats["rounds"] += 1
         spec = dict(prop="C17", kind="lazy", k=k, seed=seed)
         judge_round(ctx, flat, obs, findings, "lazy launch", spec, stats)
